@@ -147,7 +147,8 @@ fn drive_cmd(args: &[String]) -> i32 {
 /// at a time.  Output per session: the commands in the parser's normal form (its own AST mapped to
 /// the specification's shapes; replies and interrupts as they are), each with
 ///   ops / data / daddr  (direct commands) the linked code as the interpreter disassembles it,
-///   vm                  (pc, stack depth, run state) after every single execute(1) until it waits,
+///   vm                  (pc, stack depth, run state, print column, DATA pointer, number of stored
+///                       variables) after every single execute(1) until it waits,
 ///   intat               the number of steps after which an interrupt was delivered (-1: none).
 /// A session is cut at the first command that cannot be expressed or does not come to wait
 /// within max_steps.
@@ -234,7 +235,7 @@ fn code_cmd(args: &[String]) -> i32 {
                     }
                     let ev = s.step(1);
                     let p = s.probe();
-                    vm.push(json!([p.pc, p.stack.len(), p.state]));
+                    vm.push(json!([p.pc, p.stack.len(), p.state, p.print_col, p.data_pos, p.vars.len()]));
                     if matches!(ev, Some(session::Ev::Stopped) | Some(session::Ev::Input(..)) | Some(session::Ev::Panic(_))
                         | Some(session::Ev::Inkey) | Some(session::Ev::Load(_)) | Some(session::Ev::Run(_)) | Some(session::Ev::Save(_))) {
                         complete = matches!(ev, Some(session::Ev::Stopped) | Some(session::Ev::Input(..)));
